@@ -22,7 +22,9 @@ LEVEL_TEXT = (
     "invariant; the recorded log (file ++ pending ++ buffer) only ever grows at its end by the accepted command (nothing lost, "
     "duplicated, reordered or invented); at quiescence every index below len reads the right command; without ignoredups/ignoreerr "
     "len and indexing agree at EVERY reachable state, flush in flight included. With those filters the full statement is false "
-    "(C12_cex_len_index, known finding). The self-indexing JSON writer is modelled and its index proved to address every node. "
+    "(C12_cex_len_index, known finding). The self-indexing JSON writer is modelled executably (LJ.ser) and tied (offsets, sizes and text "
+    "compared with lazyjson on generated values, every node of the real output checked against its index entry); its addressing "
+    "theorem is not proved yet. "
     "Tie: real JsonHistory with the flusher threads held and released by the harness, real LazyJSON, real SQLite backend."
 )
 LEVEL_NOTE = (
